@@ -47,7 +47,8 @@ PROBES = [
     "layers_ge_4", "all_labels_at_one_position", "list_edited_in_place_and_handed_over_again",
     "subset_of_used_labels", "clones_of_laid_out_labels", "readonly_inspection",
     "standalone_distributor_reused", "labels_remeasured_between_computes", "option_written_directly",
-    "caller_dropped_label_set", "engine_dropped_labels_kept",
+    "caller_dropped_label_set", "engine_dropped_labels_kept", "caller_edits_dict_it_passed",
+    "label_list_emptied_in_place", "long_lived_process_run",
 ]
 
 RULE = {
@@ -294,7 +295,7 @@ def gen_plan(rng, tier):
             s = rng.randrange(nsets)
             o = gen_opts(rng, sets[s])
             eng_opts[e] = dict(FORCE_DEFAULTS, **o)
-            ops.append(["new_engine", e, o])
+            ops.append(["new_engine", e, o] + (["caller_keeps"] if rng.random() < 0.2 else []))
             have_engine.add(e)
             continue
         if r < 0.3:
@@ -306,7 +307,7 @@ def gen_plan(rng, tier):
         elif r < 0.5:
             s = rng.randrange(nsets)
             mode = rng.choice(["fresh", "fresh", "same", "permute", "permute", "handover", "mixed", "reversed",
-                               "same_list", "inplace", "inplace", "subset", "subset", "sorted", "clones"])
+                               "same_list", "inplace", "inplace", "subset", "subset", "sorted", "clones", "emptied"])
             ops.append(["set_labels", e, s, mode, rng.randrange(1 << 30)])
             engine_set[e] = s
         elif r < 0.6:
@@ -380,6 +381,13 @@ def gen_plan(rng, tier):
     for e in sorted(have_engine):
         if engine_set.get(e) is not None and rng.random() < 0.7:
             ops.append(["compute", e])
+    if rng.random() < 0.01 and len(sets[0]) <= 8:
+        # a long-lived process: hundreds of re-layouts on one engine (state that only
+        # builds up over time - counters, pools, caches that fill)
+        for _ in range(rng.choice([150, 400])):
+            ops.append(["compute", 0])
+            if rng.random() < 0.1:
+                ops.append(["set_labels", 0, 0, rng.choice(["same", "permute", "fresh"]), rng.randrange(1 << 30)])
     plan = {"sim": NAME, "sets": sets, "ops": ops, "enabled": enabled}
     if rng.random() < 0.15:
         plan["pyopt"] = 1  # environment: the library compiled as under `python -O`
@@ -678,6 +686,7 @@ def _run(plan):
     # sequential sharing by the caller); an engine is only ever judged right
     # after its *own* compute() has completed.
 
+    kept_cfgs = []     # option dicts the caller passed to Force(...) and went on editing
     shared_dist = []   # the one stand-alone Distributor the caller keeps
     shared_eff = {}
 
@@ -703,6 +712,13 @@ def _run(plan):
                             "fault_config": eng.get("after_fault", False)})
         layers = f.getLayers()
         bump("probe:getLayers_checked")
+        if not labels:
+            # no labels: nothing may be reported
+            if layers and any(len(layer) for layer in layers):
+                c04.append({"property": "C04", "class": "items_reported_for_no_labels", "step": step,
+                            "detail": {"op": plan["ops"][step], "reported_layer_sizes": [len(layer) for layer in layers]}})
+            eng["clean"] = None
+            return
         bad = check_c04(layers, labels, effective_dist_opts(eng["opts"]), True, stats)
         if bad is not None:
             bad[1]["op"] = plan["ops"][step]
@@ -773,8 +789,16 @@ def _run(plan):
             e = op[1]
             opts = dict(FORCE_DEFAULTS)
             opts.update(op[2])
-            engines[e] = {"force": Force(dict(op[2])), "opts": opts, "set": None, "computed": 0,
+            cfg = dict(op[2])
+            engines[e] = {"force": Force(cfg), "opts": opts, "set": None, "computed": 0,
                           "sets_seen": set()}
+            if len(op) > 3 and op[3] == "caller_keeps":
+                # the caller keeps the dict it passed and goes on editing it (to build
+                # other engines, say); this engine was configured when it was constructed
+                cfg.update({"maxPos": (cfg.get("minPos") or 0) + 77, "nodeSpacing": 17, "density": 0.33,
+                            "algorithm": "simple", "stubWidth": 9})
+                kept_cfgs.append(cfg)
+                bump("probe:caller_edits_dict_it_passed")
         elif kind == "config":
             eng = engines.get(op[1])
             if eng is None:
@@ -834,6 +858,7 @@ def _run(plan):
                     bump("probe:mixed_fresh_and_used_labels")
                 lst = list(objs[s])
                 spec = [list(t) for t in cur_sets[s]]
+                emptied_in_place = False
                 if mode_eff == "clones":
                     # copies made with the public Node.clone(): new objects that carry
                     # the originals' current position and layer number
@@ -856,6 +881,15 @@ def _run(plan):
                     lst = eng["last_list"]  # the very same list object handed over again
                     spec = eng["last_spec"]
                     bump("probe:nodes_called_with_same_list_object")
+                elif mode_eff == "emptied" and eng.get("last_list") is not None:
+                    # the caller empties, in place, the list it handed over (nodes([]) is only a
+                    # getter, so this is the way to leave an engine without labels)
+                    keep = eng["last_list"]
+                    keep[:] = []
+                    lst = keep
+                    spec = []
+                    emptied_in_place = True
+                    bump("probe:label_list_emptied_in_place")
                 elif mode_eff == "inplace" and eng.get("last_list") is not None:
                     # the caller keeps one list object, edits it in place (here: replaces
                     # its content by this set's labels) and hands the same object over again
@@ -879,7 +913,8 @@ def _run(plan):
                 else:
                     eng["handed_over"] = False
                 eng["clean"] = None
-                eng["force"].nodes(lst)
+                if not emptied_in_place:
+                    eng["force"].nodes(lst)
                 eng["label_ids"] = {id(n) for n in lst}
                 eng["set"] = s
                 eng["sets_seen"].add(s)
@@ -988,7 +1023,7 @@ def _run(plan):
                 if labels and objs.get(s) and labels[0] is objs[s][0]:
                     laid_by[s] = e
                 for e2, other in engines.items():
-                    if e2 != e and other.get("labels") and other["labels"][0] is labels[0]:
+                    if e2 != e and labels and other.get("labels") and other["labels"][0] is labels[0]:
                         other["foreign_compute"] = True
                 if outcome == "ok":
                     if eng.get("after_abort") and kind == "compute":
@@ -1193,6 +1228,8 @@ def _run(plan):
         log.append([step, kind, outcome])
     recheck(len(plan["ops"]))
     stats["ops"] = len(log)
+    if len(plan["ops"]) > 100:
+        stats["probe:long_lived_process_run"] = 1
     return {"checkpoints": checkpoints, "c04": c04, "stats": stats, "log": log}
 
 
